@@ -14,12 +14,12 @@ DEMO_FILE=$(ls $OUT/*.go | head -1)
 mkdir -p "$(dirname $DEMO_PATH)"
 echo "--- demo WITHOUT change"
 cp $DEMO_FILE $DEMO_PATH
-( cd $WT && eval "timeout 600 $DEMO_CMD" ) > /tmp/seeded_out/$N/without.log 2>&1; W=$?
+( cd $WT && timeout 600 bash -c "$DEMO_CMD" ) > /tmp/seeded_out/$N/without.log 2>&1; W=$?
 tail -3 /tmp/seeded_out/$N/without.log
 echo "exit without change: $W"
 git apply $OUT/patch.diff || { echo "PATCH DOES NOT APPLY"; exit 3; }
 echo "--- demo WITH change"
-( cd $WT && eval "timeout 600 $DEMO_CMD" ) > /tmp/seeded_out/$N/with.log 2>&1; C=$?
+( cd $WT && timeout 600 bash -c "$DEMO_CMD" ) > /tmp/seeded_out/$N/with.log 2>&1; C=$?
 tail -5 /tmp/seeded_out/$N/with.log
 echo "exit with change: $C"
 rm -f $DEMO_PATH; rmdir "$(dirname $DEMO_PATH)" 2>/dev/null
